@@ -53,13 +53,17 @@ def em_norm(ctx: Ctx):
     path = ("param", fp.params[0])
     split = ("call", ("attr", path, "split"), (("const", "/"),), ())
     rest = ("slice", ("const", 1), ("const", None), ("const", None))
-    # two ways of saying "the path is rooted": its first character is '/', or its first '/'-segment is empty (and there
+    # ways of saying "the path is rooted": path.startswith('/'), its first character is '/', or its first '/'-segment is empty (and there
     # is more than one segment, i.e. the path is not empty)
     by_char = ("cmp", "Eq", ("sub", path, ("const", 0)), ("const", "/"))
     by_seg = ("cmp", "Eq", ("sub", split, ("const", 0)), ("const", ""))
     several = ("cmp", "Gt", ("call", ("builtin", "len"), (split,), ()), ("const", 1))
 
+    by_start = ("call", ("attr", path, "startswith"), (("const", "/"),), ())
+
     def rooted(f):
+        if truth(by_start, f) is not None:
+            return truth(by_start, f)
         if truth(by_char, f) is True and truth(path, f) is not False:
             return True
         if truth(by_seg, f) is True and truth(several, f) is True:
